@@ -1348,3 +1348,40 @@ def par_14(ctx, rep):
                '%s counts INDENT / DEDENT tokens and is called (directly or indirectly) by error_recovery, which re-feeds the '
                'token it recovered on: that token is counted a second time' % f.qual)
     rep.stat('par14_counting_functions', [f.qual for f in counters])
+
+
+# ---------------------------------------------------------------------------------------------------------------
+def par_6c(ctx, rep):
+    """The strict / recovering switch reaches the parser and nothing in front of it (seed rt14-C07: the flag handed to the
+    tokenizer, which then tokenizes a multi-line replacement field differently in the two modes)."""
+    rep.rule('PAR-6c', 'in Grammar.parse the error_recovery argument is used only as the keyword of the parser constructor '
+                       'and in argument validation that raises: the token stream and the text are the same in both modes')
+    GRAMMAR = 'parso/grammar.py'
+    f = ctx.prog.func(GRAMMAR, 'Grammar.parse')
+    if 'error_recovery' not in f.all_params():
+        raise AnalysisError('PAR-6c: Grammar.parse has no error_recovery parameter')
+    n = 0
+    for x in walk_own(f.node):
+        if not (isinstance(x, ast.Name) and x.id == 'error_recovery' and isinstance(x.ctx, ast.Load)):
+            continue
+        n += 1
+        par = getattr(x, '_parent', None)
+        ok, why = False, ''
+        if isinstance(par, ast.keyword) and par.arg == 'error_recovery':
+            call = getattr(par, '_parent', None)
+            callee = norm(call.func) if isinstance(call, ast.Call) else ''
+            ok = callee in ('self._parser', 'p', 'parser') or callee.endswith('._parser')
+            why = 'the flag is handed to %s' % callee
+        else:
+            # a validation test whose true branch only raises
+            st = x
+            while st is not None and not isinstance(st, ast.stmt):
+                st = getattr(st, '_parent', None)
+            if isinstance(st, ast.If) and any(x is y for y in ast.walk(st.test)) and st.body \
+                    and all(isinstance(b, ast.Raise) for b in st.body) and not st.orelse:
+                ok = True
+            why = 'the flag is read in `%s`' % head(st) if st is not None else ''
+        rep.ob('PAR-6c', GRAMMAR, f.qual, 'use of error_recovery: %s' % norm(getattr(x, '_parent', x))[:80], ok,
+               '%s: something other than the parser depends on the mode, so the strict and the recovering parse no longer '
+               'see the same tokens / text' % why)
+    rep.minimum('PAR-6c', 2)
